@@ -160,6 +160,7 @@ fn operand_counts(op: &Operation) -> &'static [usize] {
         | Operation::Bset
         | Operation::Bclr => &[1],
         Operation::Lpm | Operation::Elpm => &[0, 2],
+        Operation::Spm => &[0, 1],
         _ => &[0],
     }
 }
@@ -494,6 +495,15 @@ pub fn process(
         Operation::Se(k) | Operation::Cl(k) => {
             let k = k.number();
             opcode |= k << 4;
+        }
+        // SPM Z+  1001 0101 1111 1000
+        Operation::Spm => {
+            if let Some(operand) = op_args.get(0) {
+                match operand {
+                    InstructionOps::Index(IndexOps::PostIncrement(Reg16::Z)) => opcode |= 0x0010,
+                    _ => bail!("spm takes no operand or Z+"),
+                }
+            }
         }
         _ => {}
     }
